@@ -16,12 +16,11 @@ variable {α : Type} [Elem α]
 omit [Elem α] in
 theorem wf_reweighted [Scalar α] (o : Obs α) (b : Bool) : Spec.wfC04 ({ o with reweighted := b } : Obs α) = Spec.wfC04 o := rfl
 
-theorem range_step_of_wf (a : Obs α) (h : Spec.wfC04 a = true) :
+omit [Elem α] in
+theorem range_step_of_wf [Scalar α] (a : Obs α) (hW : a.WF = true) :
     ∀ s n st, Idl.range s n st ∈ a.reps.map (·.idl) → st ≠ 0 := by
   intro s n st hm
   obtain ⟨r, hr, hri⟩ := List.mem_map.1 hm
-  have hW : a.WF = true := by
-    unfold Spec.wfC04 at h; simp only [Bool.and_eq_true] at h; exact h.1
   simp only [Obs.WF, Bool.and_eq_true, List.all_eq_true] at hW
   have := (hW.1.1.1.2 r hr).2
   rw [hri] at this
